@@ -347,7 +347,7 @@ def run(ctx):
             if add(major, key, i, 'captured'):
                 captured.append((major, key, i))
     # (b) mutants
-    n_mut = ctx.pick(700, 12000)
+    n_mut = ctx.pick(600, 12000)
     tries = 0
     while sum(v for k, v in stats.items() if k.startswith('mutant')) < n_mut and tries < n_mut * 6:
         tries += 1
@@ -356,7 +356,7 @@ def run(ctx):
         if r is not None:
             add(major, key, r[0], 'mutant')
     # (c) sub-trees against definitions
-    n_def = ctx.pick(500, 8000)
+    n_def = ctx.pick(400, 8000)
     subtrees = {2: [], 3: []}
     for major, key, inst in captured:
         if key in ('config/3/config#', 'config/2/config#', 'config/3/config-pre-field-type-expansion#'):
@@ -390,6 +390,25 @@ def run(ctx):
         for key in pv.keys(major):
             for s in rng.sample(SCALARS, ctx.pick(3, 25)):
                 add(major, key, copy.deepcopy(s), 'scalar')
+
+    # targeted: malformed sub-schemas (a `required:` list misplaced under `properties:`) and the
+    # unresolvable `#/definitions/dynamic-array-ft` reference; integral / special floats
+    for major, key, inst in [
+        (3, 'config/3/config-pre-field-type-expansion#', {'required': 1, 'trace': {'type': {'data-stream-types': {}}}}),
+        (3, 'config/3/config-pre-field-type-expansion#', {'trace': {'type': {'required': [], 'data-stream-types': {}}}}),
+        (3, 'config/3/config-pre-log-level-alias-sub#', {'trace': {'type': {'required': 5, 'data-stream-types': {}}}}),
+        (3, 'config/3/config-pre-field-type-expansion#', {'required': 1}),
+        (3, 'config/3/field-type#/definitions/ft', {'class': 'dynamic-array'}),
+        (3, 'config/3/field-type#/definitions/ft', {'class': {'class': 'x', 'element-field-type': {'class': 'str'}}}),
+        (3, 'config/3/field-type#/definitions/dynamic-array-ft-class-prop', {'class': 'dynamic-array', 'element-field-type': {'class': 'str'}}),
+        (3, 'config/3/field-type#/definitions/ft', {'class': 'uint', 'size': 8.0}),
+        (3, 'config/3/field-type#/definitions/ft', {'class': 'uint', 'size': 8.5}),
+        (3, 'config/3/field-type#/definitions/ft', {'class': 'real', 'size': 32.0}),
+        (3, 'config/3/field-type#/definitions/ft', {'class': 'uint', 'size': 8, 'alignment': float('inf')}),
+        (3, 'config/3/field-type#/definitions/ft', {'class': 'uint', 'size': float('nan')}),
+        (2, 'config/2/field-type#/definitions/ft', {'class': 'int', 'size': 8.0, 'align': 1.0}),
+    ]:
+        add(major, key, inst, 'targeted')
 
     n_eval, bad = run_shards(ctx, pairs)
     if bad:
